@@ -161,9 +161,11 @@ let handle kind a =
       let bs = bytes_of_hex a.(0) in
       let cuts = parse_cuts a.(1) (hex_len a.(0)) in
       Some (String.concat " " (List.map (fun k ->
-        match read_gzi (firstn_ml k bs) with
-        | None -> "Err"
-        | Some l -> "Ok:" ^ String.concat "," (List.map (fun (c, u) -> dec_of_n c ^ "-" ^ dec_of_n u) l)) cuts))
+        match read_gzi_k (firstn_ml k bs) with
+        | Inl UnexpectedEof -> "Err:UnexpectedEof"
+        | Inl InvalidData -> "Err:InvalidData"
+        | Inl OutOfFuel -> "Err:OutOfFuel"
+        | Inr l -> "Ok:" ^ String.concat "," (List.map (fun (c, u) -> dec_of_n c ^ "-" ^ dec_of_n u) l)) cuts))
   | "csi" | "tbi" | "fai" | "crai" ->
       let bs = bytes_of_hex a.(0) in
       let cuts = parse_cuts a.(1) (hex_len a.(0)) in
@@ -175,6 +177,12 @@ let handle kind a =
         | "tbi" -> tok (read_tbi p) fmt_tbi
         | "fai" -> tok (read_fai p) fmt_fai
         | _ -> tok (read_crai p) fmt_crai) cuts))
+  | "craigz" ->
+      (* every cut of the crai FILE is taken inside the model (crai_file_cuts) *)
+      let bs = bytes_of_hex a.(0) in
+      let kind_text = function KUnexpectedEof -> "UnexpectedEof" | KInvalidInput -> "InvalidInput" | KText -> "Text" in
+      Some (String.concat " " ((if gz_exact_b bs then "X1" else "X0") ::
+        List.map (function Inl e -> "E:" ^ kind_text e | Inr l -> "Ok:" ^ fmt_crai l) (crai_file_cuts bs)))
   | "csiz" | "tbiz" ->
       let bs = bytes_of_hex a.(0) in
       let tab = parse_table a.(0) a.(1) in
